@@ -129,6 +129,8 @@ def norm(v):
 
     :SymPy: supported
     """
+    if isinstance(v, np.ndarray) and v.ndim > 1:
+        v = v.flatten()  # row or column vector
     sum = 0
     for x in v:
         sum += x * x
@@ -162,6 +164,8 @@ def normsq(v):
 
     :SymPy: supported
     """
+    if isinstance(v, np.ndarray) and v.ndim > 1:
+        v = v.flatten()  # row or column vector
     sum = 0
     for x in v:
         sum += x * x
